@@ -25,7 +25,8 @@ EXTENDS Integers, Sequences, FiniteSets, TLC, Json
 CONSTANTS EmitJson,
           AllowTruncFault   \* include the injected write failure after the truncating open (known finding)
 
-Priors   == {"absent", "own", "ownnoop", "older", "garbage", "dir", "parentfile"}   \* ownnoop: own output written with -fmt noop
+Priors   == {"absent", "own", "ownnoop", "ownlong", "older", "garbage", "dir", "parentfile"}
+    \* ownnoop: own output written with -fmt noop; ownlong: own output written with -with-resets (longer, still compiles)
 Mods     == {"tidy", "stale"}   \* stale: go.mod lacks a requirement the go command could add if it were allowed to write
 OutModes == {"stdout", "file", "newdir"}        \* newdir: -out below directories that do not exist yet
 ArgKinds == {"ok", "ok2", "missing1", "missing2", "notiface2", "badalias", "none"}
@@ -44,7 +45,7 @@ Sane(s) ==
     /\ (s.fault = "write") => AllowTruncFault
     /\ (s.fault # "none") => s.args \in {"ok", "ok2"}
     /\ (s.mod = "stale") => (s.prior = "absent" /\ s.fault = "none" /\ s.args = "ok")
-    /\ (s.prior = "ownnoop") => (s.out = "file" /\ s.args \in {"ok", "ok2"})
+    /\ (s.prior \in {"ownnoop", "ownlong"}) => (s.out = "file" /\ s.args \in {"ok", "ok2"})
 
 VARIABLES sc,        \* the scenario
           pc,        \* control point of run()
@@ -149,7 +150,7 @@ AllOrNothing ==
     (Done /\ exit # 0) =>
         /\ stderr # ""
         /\ srcOnStdout = "none"
-        /\ \/ outSt = "prior" /\ sc.prior \in {"own", "ownnoop", "older", "garbage"}  \* byte-for-byte untouched
+        /\ \/ outSt = "prior" /\ sc.prior \in {"own", "ownnoop", "ownlong", "older", "garbage"}  \* byte-for-byte untouched
            \/ outSt = "dir" /\ sc.prior = "dir"
            \/ outSt = "absent" /\ (sc.prior \in {"absent", "parentfile"} \/ sc.rm) \* nothing there before, or -rm: just gone
 (* C17: on success exactly the complete file, once; parents created *)
@@ -167,7 +168,7 @@ Terminates == <>Done
 (* C15 (second half): with -rm the outcome does not depend on the prior      *)
 (* content: success whenever the same scenario with prior = absent succeeds  *)
 RmMakesPriorIrrelevant ==
-    (Done /\ sc.rm /\ sc.out = "file" /\ sc.prior \in {"own", "ownnoop", "older", "garbage"} /\ sc.fault = "none" /\ sc.args \in {"ok", "ok2"}) => (exit = 0 /\ outSt = "new")
+    (Done /\ sc.rm /\ sc.out = "file" /\ sc.prior \in {"own", "ownnoop", "ownlong", "older", "garbage"} /\ sc.fault = "none" /\ sc.args \in {"ok", "ok2"}) => (exit = 0 /\ outSt = "new")
 
 Emit == (EmitJson /\ Done) =>
           PrintT("CLI " \o ToJson([sc |-> sc, exit |-> exit, outSt |-> outSt, srcOnStdout |-> srcOnStdout, stderr |-> stderr,
